@@ -26,6 +26,7 @@ Fails(e) ==
   IF e.stage # "done" THEN {"conversion-step-fails-" \o e.stage}
   ELSE WireFails(e, e.cbor, TRUE) \cup WireFails(e, e.cborpub, FALSE)
        \cup (IF e.cbor2 # e.cbor THEN {"key-encoding-not-reproducible"} ELSE {})
+       \cup (IF ~e.copystable THEN {"parsed-key-kept-by-value-changed-when-its-variable-was-parsed-into-again"} ELSE {})
        \cup (IF e.cbor3 # e.cbor THEN {"decoded-key-does-not-reencode-to-the-same-bytes"} ELSE {})
        \cup (IF StripZeros(e.rtd) # StripZeros(e.d) \/ StripZeros(e.rtx) # StripZeros(e.x) \/ StripZeros(e.rty) # StripZeros(e.y) THEN {"private-key-round-trip-differs"} ELSE {})
        \cup (IF StripZeros(e.rtpx) # StripZeros(e.x) \/ StripZeros(e.rtpy) # StripZeros(e.y) THEN {"public-key-round-trip-differs"} ELSE {})
